@@ -28,6 +28,22 @@ impl Xerr {
     #[verifier::external_body] pub fn map_missing_key() -> Xerr { unimplemented!() }
     #[verifier::external_body] pub fn unbalanced_map_builder() -> Xerr { unimplemented!() }
 }
+// ASSUMED std/rpds iterator facts behind I/J/K: nth_back(n) of a slice iterator is the n-th element from the end;
+// iter().nth(i) of an rpds vector is its i-th element, of an rpds map its i-th entry in key order
+#[verifier::external_body]
+fn verif_loops_nth_back<'a>(v: &'a Vec<Loop>, from: usize, n: usize) -> (r: Option<&'a Loop>)
+    requires from <= v@.len()
+    ensures r is Some <==> n < v@.len() - from, r is Some ==> *r->0 == v@[v@.len() - 1 - n]
+{ v[from..].iter().nth_back(n) }
+pub uninterp spec fn xmap_nth(m: Xmap, i: int) -> Option<(Cell, Cell)>;
+impl Xvec {
+    #[verifier::external_body] pub fn verif_iter_nth(&self, i: usize) -> (r: Option<&Cell>)
+        ensures r is Some <==> i < self@.len(), r is Some ==> *r->0 == self@[i as int] { unimplemented!() }
+}
+impl Xmap {
+    #[verifier::external_body] pub fn verif_iter_nth(&self, i: usize) -> (r: Option<(&Cell, &Cell)>)
+        ensures r is Some <==> xmap_nth(*self, i as int) is Some, r is Some ==> (*(r->0).0, *(r->0).1) == xmap_nth(*self, i as int)->0 { unimplemented!() }
+}
 pub assume_specification [ <isize>::unsigned_abs ] (a: isize) -> (r: usize)
     ensures r == (if a < 0 { -(a as int) } else { a as int });
 
@@ -38,6 +54,11 @@ impl Cell {
 //@use cell.fns Cell::to_usize assumed
 //@use cell.fns Cell::to_vec assumed
 //@use cell.fns Cell::vec assumed
+//@use cell.fns Cell::to_map assumed
+//@use cell.fns Cell::tags assumed
+//@use cell.fns Cell::with_tags assumed
+//@use cell.fns Cell::insert_tag assumed
+//@use cell.fns Cell::remove_tag assumed
 //@use coll.fns "impl PartialEq for Cell"::eq
 //@use coll.fns "impl PartialOrd for Cell"::partial_cmp
 //@use coll.fns "impl Ord for Cell"::cmp
@@ -49,6 +70,13 @@ impl vstd::std_specs::convert::FromSpecImpl<usize> for Cell {
 }
 impl From<usize> for Cell {
 //@use cell.fns "impl From<usize> for Cell"::from
+}
+impl vstd::std_specs::convert::FromSpecImpl<isize> for Cell {
+    open spec fn obeys_from_spec() -> bool { true }
+    open spec fn from_spec(x: isize) -> Cell { Cell::Int(x as i128) }
+}
+impl From<isize> for Cell {
+//@use cell.fns "impl From<isize> for Cell"::from
 }
 impl vstd::std_specs::convert::FromSpecImpl<Xvec> for Cell {
     open spec fn obeys_from_spec() -> bool { true }
@@ -80,6 +108,15 @@ impl State {
 //@use coll.fns ::map_collect_till_ptr
 //@use coll.fns ::map_builder_end
 //@use coll.fns ::core_word_collect
+//@use coll.fns ::counter_value
+//@use coll.fns ::core_word_tags
+//@use coll.fns ::core_word_with_tags
+//@use coll.fns ::core_word_insert_tag
+//@use coll.fns ::core_word_remove_tag
+//@use coll.fns ::core_word_get_tag
+//@use coll.fns ::core_word_counter_i
+//@use coll.fns ::core_word_counter_j
+//@use coll.fns ::core_word_counter_k
 
 } // verus!
 fn main() {}
